@@ -39,11 +39,11 @@ def gen_cases(seed, tier):
     nt = 1500 if tier == 'quick' else 100000
     na = 240 if tier == 'quick' else 20000
     out = []
-    spectra = ['flat', 'geom', 'dominant', 'lowrank']
+    spectra = ['flat', 'geom', 'dominant', 'lowrank', 'wide']
     for j in range(nt):
         out.append({'kind': 'trunc', 'seed': int(rng.integers(1 << 62)),
             'family': gen.FAMILIES[j % len(gen.FAMILIES)],
-            'spectrum': spectra[(j // 3) % 4],
+            'spectrum': spectra[(j // 3) % len(spectra)],
             'dmax': 5 if tier == 'quick' else 7})
     for j in range(na):
         out.append({'kind': 'add_many', 'seed': int(rng.integers(1 << 62)),
@@ -174,6 +174,12 @@ def shape_spectrum(Y, kind, rng):
         return
     if kind == 'geom':
         q = float(rng.choice([0.1, 0.3, 0.6]))
+        for G in Y:
+            G *= (q ** np.arange(G.shape[2]))[None, None, :]
+    elif kind == 'wide':
+        # singular values spanning up to 15 decades (e below 1e-8 must still
+        # resolve them in SVD mode)
+        q = float(rng.choice([1e-2, 1e-3, 3e-4]))
         for G in Y:
             G *= (q ** np.arange(G.shape[2]))[None, None, :]
     elif kind == 'dominant':
